@@ -134,6 +134,11 @@ class Parenthesis(TypedExpression):
             else:
                 inner_indent = indent
                 inner = self.value.rebuild(indent=inner_indent, inline=True)
+                if inner.startswith("#"):
+                    # A line comment cannot share the line of the opening
+                    # parenthesis (a re-parse attaches it elsewhere): the body
+                    # that lost its first line to an edit opens on a new line.
+                    inner = "\n" + self.value.rebuild(indent=indent + 2, inline=False)
             if trailing_layout.on_newline:
                 suffix = "\n\n" if trailing_layout.blank_line else "\n"
                 inner = inner + suffix + indentation
